@@ -49,8 +49,8 @@ func runC14(c *Ctx) error {
 	runs := make([]*tr.Run, len(cases))
 	for i, cs := range cases {
 		slack := cs.Window
-		if slack < 50*time.Millisecond {
-			slack = 50 * time.Millisecond
+		if slack < 250*time.Millisecond {
+			slack = 250 * time.Millisecond
 		}
 		runs[i] = T.NewRun(cs.Class, map[string]any{"window": int64(cs.Window / time.Microsecond), "slack": int64(slack / time.Microsecond)})
 		runs[i].Key = fmt.Sprintf("%+v/%d", cs, i)
@@ -165,7 +165,7 @@ func c14Run(r *tr.Run, cs c14Case, rng *rand.Rand) {
 					}
 					// sometimes long enough for the keys to be forgotten for sure
 					if lr.Intn(2) == 0 {
-						time.Sleep(cs.Window*3/2 + 75*time.Millisecond)
+						time.Sleep(cs.Window*3/2 + 400*time.Millisecond)
 					} else {
 						time.Sleep(cs.Window / 3)
 					}
